@@ -142,7 +142,7 @@ function manyDeclsProgram(rng) {
 }
 
 export async function run(ctx) {
-  const nProjects = ctx.share(4800, 160000);
+  const nProjects = ctx.share(9600, 160000);
   const procs = ctx.quick ? 6 : 12;
   let sampled = 0;
   for (let i = 0; i < nProjects; i++) {
